@@ -469,17 +469,18 @@ pub fn check_case(bin: &Path, c: &CliCase, dir: &Path, l: &mut Local) -> Result<
                             bad.push(("cli:translate-policy:to-cedar:output-differs".into(), format!("CLI prints {:?}, API gives {want:?}", run.stdout)));
                         }
                         // independent of to_cedar: the printed text holds exactly the input policies
-                        let mut want_est: Vec<String> = kept.iter().map(|a| norm_est(&a.pol.est())).collect();
-                        want_est.sort();
-                        let got_est: Result<Vec<String>, String> = est_of_text(&run.stdout);
-                        match got_est {
-                            Ok(mut g) => {
+                        // (compared as loc-free ASTs, so `!=` and `!(.. == ..)` are the same policy)
+                        let want_abs: Result<Vec<String>, String> = kept.iter().map(|a| abs_of_est(&a.pol.est(), a.link.is_some())).collect();
+                        match (want_abs, abs_of_text(&run.stdout)) {
+                            (Ok(mut w), Ok(mut g)) => {
+                                w.sort();
                                 g.sort();
-                                if g != want_est {
-                                    bad.push(("cli:translate-policy:to-cedar:denotes-other-policies".into(), format!("printed text parses to {g:?}, input was {want_est:?}: {ctxt}")));
+                                if g != w {
+                                    bad.push(("cli:translate-policy:to-cedar:denotes-other-policies".into(), format!("printed text parses to {g:?}, input was {w:?}: {ctxt}")));
                                 }
                             }
-                            Err(e) => bad.push(("cli:translate-policy:to-cedar:output-does-not-parse".into(), format!("{e}: {ctxt}"))),
+                            (Err(e), _) => bad.push(("cli:translate-policy:to-cedar:oracle".into(), format!("input EST does not load: {e}"))),
+                            (_, Err(e)) => bad.push(("cli:translate-policy:to-cedar:output-does-not-parse".into(), format!("{e}: {ctxt}"))),
                         }
                     }
                 }
@@ -562,40 +563,34 @@ pub fn check_case(bin: &Path, c: &CliCase, dir: &Path, l: &mut Local) -> Result<
     Ok(bad)
 }
 
-/// canonical text of an EST (key order independent)
-fn norm_est(j: &J) -> String {
-    // serde_json's Value maps are sorted (BTreeMap) unless preserve_order is on; normalise anyway
-    fn sort(j: &J) -> J {
-        match j {
-            J::Object(m) => {
-                let mut keys: Vec<&String> = m.keys().collect();
-                keys.sort();
-                J::Object(keys.into_iter().map(|k| (k.clone(), sort(&m[k]))).collect())
-            }
-            J::Array(a) => J::Array(a.iter().map(sort).collect()),
-            o => o.clone(),
-        }
-    }
-    // an absent annotations map and an empty one are the same policy
-    let mut v = sort(j);
-    if let Some(o) = v.as_object_mut() {
-        if o.get("annotations").map(|a| a.as_object().map(|m| m.is_empty()).unwrap_or(false)).unwrap_or(false) {
-            o.remove("annotations");
-        }
-    }
-    v.to_string()
+/// loc-free abstraction (id blanked) of a policy / template given as EST
+fn abs_of_est(j: &J, template: bool) -> Result<String, String> {
+    let id = Some(cedar_policy::PolicyId::new("x"));
+    let mut a = if template {
+        let t = cedar_policy::Template::from_json(id, j.clone()).map_err(|e| e.to_string())?;
+        crate::bind::abs_template(t.as_ref())?
+    } else {
+        let p = cedar_policy::Policy::from_json(id, j.clone()).map_err(|e| e.to_string())?;
+        crate::bind::abs_policy(p.as_ref())?
+    };
+    a.id = String::new();
+    Ok(format!("{a:?}"))
 }
 
-/// parse a policy-set text and return the normalised EST of every element
-fn est_of_text(s: &str) -> Result<Vec<String>, String> {
+/// parse a policy-set text and return the loc-free abstraction (id blanked) of every element
+fn abs_of_text(s: &str) -> Result<Vec<String>, String> {
     use std::str::FromStr;
     let ps = cedar_policy::PolicySet::from_str(s).map_err(|e| e.to_string())?;
     let mut out = Vec::new();
     for p in ps.policies() {
-        out.push(norm_est(&p.to_json().map_err(|e| e.to_string())?));
+        let mut a = crate::bind::abs_policy(p.as_ref())?;
+        a.id = String::new();
+        out.push(format!("{a:?}"));
     }
     for t in ps.templates() {
-        out.push(norm_est(&t.to_json().map_err(|e| e.to_string())?));
+        let mut a = crate::bind::abs_template(t.as_ref())?;
+        a.id = String::new();
+        out.push(format!("{a:?}"));
     }
     Ok(out)
 }
